@@ -382,6 +382,7 @@ func runCall(cfg int, gas uint64, value *big.Int, to common.Address, code, input
 	setConfig(cfg)
 	w := newWorld(code, aux)
 	cur = w.rec
+	obs = &stepObs{}
 	e := w.evm(gas)
 	head := fmt.Sprintf("call %d %d %s %s %s %s ", cfg, gas, hexTok(value.Bytes()), ha(to), hexTok(input), ctxToken(gas))
 	_, isPre := vm.PrecompiledContracts[to]
@@ -398,6 +399,7 @@ func runCreate(cfg int, gas uint64, value *big.Int, init []byte, aux []byte) (st
 	setConfig(cfg)
 	w := newWorld(nil, aux)
 	cur = w.rec
+	obs = &stepObs{}
 	e := w.evm(gas)
 	head := fmt.Sprintf("create %d %d %s %s %s ", cfg, gas, hexTok(value.Bytes()), hexTok(init), ctxToken(gas))
 	run := func() string {
